@@ -60,7 +60,10 @@ func ExecDev(c *Case) (nontrivial bool, labels []string, fail *vlib.Failure) {
 	default:
 		gdev = vlib.NewGNMIDevice(device)
 		defer gdev.Stop()
-		gdev.Chunk, gdev.Blobs = d.Chunk, d.Blobs
+		gdev.Chunk, gdev.Blobs, gdev.Prefix = d.Chunk, d.Blobs, d.Prefix
+		if d.Prefix {
+			lab["gnmi-notification-prefix"] = true
+		}
 		var err error
 		tgt, err = target.New(ctx, name, &config.SBI{Type: "gnmi", Address: "bufnet", Port: 1, GnmiOptions: &config.SBIGnmiOptions{Encoding: "proto"}}, scb, gdev.DialOpts()...)
 		if err != nil {
@@ -80,6 +83,9 @@ func ExecDev(c *Case) (nontrivial bool, labels []string, fail *vlib.Failure) {
 		}
 		if d.Chunk > 0 {
 			lab["chunked-notifications"] = true
+		}
+		if d.Chunk < 0 {
+			lab["notification-per-parent-node"] = true
 		}
 	}
 	sps := []*config.SyncProtocol{sp}
